@@ -299,8 +299,9 @@ OnFaultOp == /\ Line.ev = "op" /\ sc.mode = "fault"
                 /\ fm' = f2
              /\ UNCHANGED <<m, pobs, sc>>
 
-OnDmgBase == Line.ev = "dmgbase" /\ UNCHANGED <<m, pobs, sc, fm>>
-OnDmg     == Line.ev = "dmg" /\ Report(DamageFails(m, Line)) /\ UNCHANGED <<m, pobs, sc, fm>>
+\* the directory that is about to be damaged (a cleanly closed store or a crash image) is kept in pobs
+OnDmgBase == Line.ev = "dmgbase" /\ pobs' = [open |-> FALSE, disk |-> Line.disk] /\ UNCHANGED <<m, sc, fm>>
+OnDmg     == Line.ev = "dmg" /\ Report(DamageFails(DiskOfJson(pobs.disk), Line)) /\ UNCHANGED <<m, pobs, sc, fm>>
 OnPlant   == Line.ev = "plant" /\ Report(PlantFails(m, Line)) /\ UNCHANGED <<m, pobs, sc, fm>>
 OnGate    == /\ Line.ev = "gate" /\ Report(GateFails(m, Line))
              /\ m' = IF Line.res.ok THEN RunOp(m, [op |-> "reopen"]) ELSE m
